@@ -85,6 +85,16 @@ def run(ctx: Ctx) -> Result:
     mc = tlc.model_check("MC_Keys", cfg="MC_Keys.cfg", workers=4)
     if not mc["ok"]:
         raise tlc.MachineryError("MC_Keys failed\n" + mc["out"][-1500:])
+    if ctx.thorough:
+        # the key discipline inside the whole forward loop (spec/MC_Panel.tla): keys are split in every period, the last one
+        # included, every agent draws exactly once per period and variable with a key nobody else uses, period 0 is decided
+        # before any key is consumed; the variant that splits the carried key without replacing it must be refuted
+        from ..unitlib import mc_must_fail, mc_or_die
+
+        mcp = mc_or_die("MC_Panel", "MC_Panel_quick.cfg", workers=16)
+        res.merge_cov(mc_panel_states=mcp["distinct"])
+        mc_must_fail("MC_Panel", "MC_Panel_neg_keys.cfg", "NoKeyReuse", workers=8)
+        res.notes.append("MC_Panel_quick.cfg: no error; MC_Panel_neg_keys.cfg (carried key not advanced) refuted by NoKeyReuse")
     # unbounded: Apalache proves the inductive invariant of the key discipline for arbitrary numbers of periods,
     # stochastic variables and agents (spec/apalache/KeysInd.tla)
     import subprocess
